@@ -61,7 +61,8 @@ Proof.
   all: unfold p_align, p_next_int, p_next_float, p_next_str, p_next, p_bounds, p_write_str, p_bounds in E.
   all: crush E; injection E as <-; sizes; intfmt; cbn in *; try lia.
   all: repeat match goal with H : p_fmt _ = _ |- _ => rewrite H; clear H end; cbn; try lia.
-  match goal with H : (if ?c then inl _ else inr _) = inr _ |- _ => destruct c; [discriminate H|]; injection H as <- <- end.
+  repeat match goal with H : (if ?c then _ else _) = inr _ |- _ => destruct c; [discriminate H|] end.
+  match goal with H : inr _ = inr _ |- _ => injection H as <- <- end.
   cbn. lia.
 Qed.
 
@@ -127,10 +128,30 @@ Theorem unpack_no_panic fmt data j : unpack fmt data j <> UPanic /\ unpack fmt d
 Proof. unfold unpack. destruct (unpack_go_total (S (length fmt)) (mkU rd0 fmt j (skipn (Z.to_nat j) data) [])); [cbn; lia|auto]. Qed.
 
 (* ------------------------------------------------------------ packsize *)
+Lemma s_inc_fmt n s s' : s_inc n s = SCont s' -> s_fmt s' = s_fmt s.
+Proof. unfold s_inc. intros E. crush E. injection E as <-. reflexivity. Qed.
+
+Lemma s_align_fmt n s k s' : s_align n s k = SCont s' ->
+  s_fmt s' = s_fmt s \/ exists s1, s_fmt s1 = s_fmt s /\ k s1 = SCont s'.
+Proof.
+  unfold s_align. intros E.
+  destruct (n =? 0).
+  - destruct (alignOnly (s_rd s)); [injection E as <-; left; reflexivity|right; eauto].
+  - destruct (negb _); [discriminate|].
+    destruct (_ =? 0).
+    + destruct (alignOnly (s_rd s)); [injection E as <-; left; reflexivity|right; eauto].
+    + destruct (s_inc _ s) as [s1|] eqn:EI; [|discriminate]. apply s_inc_fmt in EI.
+      destruct (alignOnly (s_rd s)); [injection E as <-; left; exact EI|right; eauto].
+Qed.
+
 Lemma size_opt_fmt c s s' : size_opt c s = SCont s' -> (length (s_fmt s') <= length (s_fmt s))%nat.
 Proof.
-  intros E. unfold size_opt, s_align, s_inc in E.
+  intros E. unfold size_opt in E.
   crush E; try (injection E as <-); sizes; cbn in *; try lia.
+  all: try (apply s_align_fmt in E; destruct E as [E|(s1 & F & E)]; cbn in *; [rewrite E; lia|]).
+  all: crush E; try discriminate; try (injection E as <-); try (apply s_inc_fmt in E); sizes; cbn in *;
+       try rewrite E; try rewrite F in *; try lia.
+  all: match goal with H : s_inc _ _ = SCont _ |- _ => apply s_inc_fmt in H; rewrite H; cbn; lia end.
 Qed.
 
 Lemma size_go_fuel : forall fuel s, (length (s_fmt s) < fuel)%nat -> size_go fuel s <> SOutOfFuel.
@@ -187,7 +208,8 @@ Proof.
   all: try (eapply smallOptSize_keeps; eauto; fail).
   all: try (eapply mustGetOptSize_keeps; eauto; fail).
   all: try discriminate.
-  all: match goal with H : (if ?c then inl _ else inr _) = inr _ |- _ => destruct c; [discriminate H|]; injection H as <- <- end.
+  all: repeat match goal with H : (if ?c then _ else _) = inr _ |- _ => destruct c; [discriminate H|] end.
+  all: match goal with H : inr _ = inr _ |- _ => injection H as <- <- end.
   all: cbn; eapply mustGetOptSize_keeps; eauto.
 Qed.
 
